@@ -15,6 +15,8 @@ import (
 	"sync"
 	"sync/atomic"
 	"time"
+
+	"verifmc/rt"
 )
 
 type Verdict uint8
@@ -97,6 +99,26 @@ func (c *Config) names(h []uint8) []string {
 func Explore(c Config) *Stats {
 	st := &Stats{Name: c.Name, MaxDepth: c.MaxDepth, Known: map[string]*KnownStat{}, Exhaustive: true}
 	t0 := time.Now()
+	if rp := rt.Replay; rp != nil {
+		// replay mode: only the recorded history of the named sub-run, twice (must agree)
+		if rp.Run != c.Name {
+			return st
+		}
+		o1, o2 := c.Run(rp.Ops), c.Run(rp.Ops)
+		fmt.Printf("REPLAY %s %v\n", c.Name, c.names(rp.Ops))
+		if o1.Verdict != o2.Verdict || o1.Msg != o2.Msg {
+			rt.HarnessError("replay of %v is not deterministic: %q vs %q", c.names(rp.Ops), o1.Msg, o2.Msg)
+		}
+		st.States, st.Transitions = 1, 1
+		switch o1.Verdict {
+		case Violation:
+			st.NViolations = 1
+			st.Violations = []Fail{{Hist: c.names(rp.Ops), Raw: rp.Ops, Msg: o1.Msg}}
+		case Known:
+			st.Known[o1.Finding] = &KnownStat{Count: 1, Witness: c.names(rp.Ops), Msg: o1.Msg}
+		}
+		return st
+	}
 	if c.Workers <= 0 {
 		c.Workers = 1
 	}
